@@ -22,6 +22,7 @@ type PropConfig struct {
 	Level     string   `json:"level"`
 	NotDecided []string `json:"not_decided"`
 	Assumptions []string `json:"assumptions"`
+	Discipline  bool     `json:"discipline"`
 }
 
 func loadConfig() (map[string]*PropConfig, error) {
